@@ -67,6 +67,8 @@ def feasible(sc):
     v = StepView(sc)
     M = len(sc['machines'])
     for name, o in v.obs.items():
+        # whole timesteps only: topsim itself calls a fractional timestep duration a configuration error
+        # (message of Buffer.check_buffer_capacity), and rate x duration is otherwise not what gets deposited
         if o['dur'] < 1 or o['dur'] != int(o['dur']):
             return False
         if o['demand'] > sc['arrays']:
@@ -88,9 +90,10 @@ def feasible(sc):
                         or mn < ap['min_resources_per_workflow']:
                     return False
         else:
-            if int(M / ap['max_resource_partitions']) < ap['min_resources_per_workflow']:
+            # the configured reservation must be obtainable on an idle cluster and hold at least one machine
+            if int(M / ap['max_resource_partitions']) < max(1, ap['min_resources_per_workflow']):
                 return False
-            if ap['min_resources_per_workflow'] < 1:
+            if ap['min_resources_per_workflow'] < 0:
                 return False
     return True
 
@@ -106,7 +109,7 @@ def serial_bound(sc, extra_delay=0, extra_stall=0):
     minbw = min(v.bw.values())
     B = max(math.ceil(o['est']) for o in v.obs.values())
     for name, o in v.obs.items():
-        B += o['dur'] + 2 * math.ceil(o['vol'] / minrate) + L_O
+        B += math.ceil(o['dur']) + 2 * math.ceil(math.ceil(o['dur']) * o['rate'] / minrate) + L_O
         nodes = v.nodes(name)
         edges = v.edges(name)
         for n, nd in nodes.items():
@@ -162,6 +165,8 @@ def gen(seed, profile='general', big=False):
     unit = pick('unit', {'seconds': 60, 'custom': 20, 'minutes': 10, 'hours': 10})
     if unit == 'custom':
         unit = rng.randint(2, 7)
+        if rng.random() < P.get('big_units', 0.0):
+            unit = rng.choice([10, 12, 30, 49, 75, 90, 150, 300, 900])
     k = unit_factor(unit)
 
     nm = pick('nm', {1: 8, 2: 22, 3: 25, 4: 20, 5: 15, 6: 10})
@@ -204,8 +209,11 @@ def gen(seed, profile='general', big=False):
         else:
             ps, pd = obs[-1]['_s'], obs[-1]['_d']
             start = ps + rng.randint(0, max(0, pd - 1))
+        off = 0
+        if k > 1 and rng.random() < P.get('frac_start', 0.3):
+            off = rng.randint(1, k - 1)          # planned start falls inside a timestep
         obs.append({'name': names[i], '_s': start, '_d': dur,
-                    'start': start * k, 'duration': dur * k,
+                    'start': start * k + off, 'duration': dur * k,
                     'instrument_demand': rng.randint(1, arrays),
                     'data_product_rate': rng.randint(1, hot_rate),
                     'ingest_demand': rng.randint(1, max_ingest),
@@ -235,6 +243,11 @@ def gen(seed, profile='general', big=False):
     cold_cap = vsum + rng.randint(0, vsum) if cregime == 'ample' else vmax + rng.randint(0, max(1, vsum - vmax))
     for o in obs:
         del o['_s'], o['_d']
+    if rng.random() < P.get('shuffle_plan', 0.25):
+        # the plan need not be listed in start order (the telescope examines it in list order)
+        order = list(range(nobs))
+        rng.shuffle(order)
+        obs = [obs[i] for i in order]
 
     wfs = []
     share_wf = rng.random() < 0.15
@@ -269,12 +282,14 @@ def gen(seed, profile='general', big=False):
     if pairing == 'batch':
         parts = rng.randint(1, 3)
         mn = rng.randint(1, max(1, nm // parts))
+        if rng.random() < 0.1:
+            mn = 0          # legal, degenerate: "no minimum
         ap = {'max_resource_partitions': parts, 'min_resources_per_workflow': mn,
               'resource_split': None}
         if rng.random() < 0.25:
             split = {}
             for o in obs:
-                lo = rng.randint(mn, nm)
+                lo = rng.randint(max(mn, 1), nm)
                 split[o['name']] = [lo, rng.randint(lo, nm)]
             ap['resource_split'] = split
     static = {'seed': rng.randint(0, 10 ** 6),
@@ -310,6 +325,8 @@ def gen(seed, profile='general', big=False):
                 faults['stalls'][o['name']] = sorted(rng.sample(range(0, 12), rng.randint(1, 4)))
     if rng.random() < fk.get('F4', 0):
         faults['perm'] = {'seed': rng.randint(0, 10 ** 6)}
+    if rng.random() < P.get('overrun', 0.0):
+        faults['overrun'] = rng.choice([1, 2, 4])      # timesteps simulated after the run has completed
 
     if rng.random() < P.get('overrate', 0.0):
         o = rng.choice(obs)
@@ -350,7 +367,7 @@ PROFILES = {
     'buffer': {'buffer': {'ample': 60, 'wait': 20, 'tight': 16, 'over': 4}, 'overrate': 0.06,
                'pattern': {'b2b': 30, 'overlap': 50, 'simul': 10, 'gaps': 10},
                'nobs': {2: 40, 3: 40, 4: 20}, 'faults': {'F1': 0.3, 'F4': 0.2}},
-    'real': {'monitor': 'real', 'dur': {1: 20, 2: 25, 3: 25, 4: 15, 5: 15},
+    'real': {'monitor': 'real', 'overrun': 0.25, 'dur': {1: 20, 2: 25, 3: 25, 4: 15, 5: 15},
              'ntasks': {1: 20, 2: 25, 3: 25, 4: 15, 5: 15},
              'unit': {'seconds': 80, 'custom': 10, 'minutes': 5, 'hours': 5},
              'pattern': {'overlap': 45, 'b2b': 25, 'simul': 10, 'gaps': 20},
@@ -367,7 +384,7 @@ PROFILES = {
               'buffer': {'ample': 95, 'wait': 5}, 'monitor': 'real',
               'dur': {1: 25, 2: 30, 3: 25, 4: 20}, 'unit': {'seconds': 90, 'custom': 10},
               'dists': ['normal', 'normal', 'poisson', 'uniform']},
-    'units': {'unit': {'custom': 60, 'minutes': 20, 'hours': 20}, 'hetero': 0.0,
+    'units': {'unit': {'custom': 60, 'minutes': 20, 'hours': 20}, 'hetero': 0.0, 'frac_start': 0.0, 'big_units': 0.4,
               'comp': {1: 40, 2: 30, 3: 20, 4: 10},
               'dur': {1: 40, 2: 35, 3: 25}, 'buffer': {'ample': 95, 'wait': 5},
               'nobs': {1: 45, 2: 40, 3: 15}, 'ntasks': {1: 25, 2: 30, 3: 25, 4: 20},
